@@ -9,17 +9,13 @@ import (
 	"verif/mc/internal/common"
 )
 
-var table = map[string]func(common.Tier) int{
-	"C01": checks.C01,
-	"C02": checks.C02,
-}
 
 func main() {
 	if len(os.Args) < 2 {
 		fmt.Fprintln(os.Stderr, "usage: mc <ID> [quick|thorough]")
 		os.Exit(2)
 	}
-	f, ok := table[os.Args[1]]
+	f, ok := checks.Table[os.Args[1]]
 	if !ok {
 		fmt.Fprintf(os.Stderr, "unknown check %q\n", os.Args[1])
 		os.Exit(2)
